@@ -48,9 +48,10 @@ def spec_fingerprint(spec):
     return (_fp(spec.transform_state), tuple((k, repr(v[0])) for k, v in spec.encoder_state.items()), repr(spec.structure), repr(list(spec.formula)))
 
 
-def run_history(formula, history, data, same, make_ctx):
+def run_history(formula, history, data, same, make_ctx, lost_rows=None):
     """
     data: {1: (df, numeric dict), 2: (df, numeric dict)}; make_ctx(numeric) -> context mapping or None (then numeric is in df).
+    lost_rows: {data set: rows the formula itself makes null (lag)} when the default row accounting does not apply.
     Returns (problems, claims).
     """
     from formulaic import Formula, ModelSpec, model_matrix
@@ -100,6 +101,8 @@ def run_history(formula, history, data, same, make_ctx):
         want_rows = len(df) - (len(Z_NULLS_D2) if (int(op[1]) == 2 and "z" in formula) else 0)
         if int(op[1]) == 3:
             want_rows = len(df)
+        if lost_rows is not None:
+            want_rows = len(df) - lost_rows[int(op[1])]
         if cg.shape[0] != want_rows:
             problems.append(("history-changes-rows", f"{where}: {cg.shape[0]} rows returned, the data has {want_rows} complete rows"))
         # determinism of what is RECORDED: the same call on fresh objects records state under the same keys
@@ -134,3 +137,35 @@ def _same_obj(x, y):
         return bool(x == y) if isinstance(x, (int, float)) else x is y
     except Exception:
         return False
+
+
+# ------------------------------------------------------------------------------------------------ native leg: context arrays
+
+# formulas whose numeric inputs arrive as raw float64 arrays through `context` (the buffers a transform could write into); `lag`
+# belongs here: it is defined across rows, so a symbolic row map says nothing about it, but it must still be pure
+CONTEXT_ARRAY_FORMULAS = {
+    "b + lag(a)": 1, "a + lag(a, 2):A": 2, "lag(b) + lag(a)": 1, "center(a) + b": 0, "scale(a):A + poly(b, 2)": 0, "np.log(a + 50) + {a * b} + I(b)": 0,
+    "bs(a, df=4) + cr(b, df=3)": 0, "a + b": 0,
+}
+
+
+def context_array_problems(formula: str, history):
+    """Native run of one history with a, b supplied as float64 ndarrays in the context; -> list of (tag, message)."""
+    from . import matrix_common as mc
+
+    n = mc.NROWS
+    lost = CONTEXT_ARRAY_FORMULAS[formula]
+    f1, f2 = mc.cat_frame(), mc.cat_frame(a_rows=list(reversed(mc.A_ROWS)))
+    arrays = {1: {"a": numpy.array([0.5, 2.0, 3.25, 4.0, 6.5, 7.0, 9.75]), "b": numpy.array([4.0, 1.5, 6.0, 2.5, 8.0, 3.0, 5.5])},
+              2: {"a": numpy.array([1.0, 8.5, 2.0, 7.25, 3.0, 6.0, 4.5]), "b": numpy.array([7.0, 2.0, 5.5, 1.0, 6.5, 3.0, 4.25])}}
+    data = {1: (f1, arrays[1]), 2: (f2, arrays[2])}
+
+    def same(u, v):
+        u, v = float(u), float(v)
+        return (numpy.isnan(u) and numpy.isnan(v)) or u == v
+
+    problems, claims = run_history(formula, history, data, same, lambda num: dict(num), lost_rows={1: lost, 2: lost})
+    for label, cs, tag in claims:
+        if not all(cs):
+            problems.append((tag, f"{label}: values differ"))
+    return problems
